@@ -196,10 +196,14 @@ def check_shape(idx):
         for s in sigs:
             if (s in out) != (s not in NONEXPORTABLE):
                 return False
-    # a copy exports identically, and a second export/import is stable
+    # a copy exports identically; a second export / import keeps the structure (NOT necessarily the octets: an identity left without any exportable
+    # signature changes its place among the identities on re-import, which the property does not forbid - found by the 4-packet sequences)
     if bytes(copy.copy(key).__bytearray__()) != out:
         return False
-    return bytes(back.__bytearray__()) == out
+    back2, rest2 = PGPKey.from_blob(bytes(back.__bytearray__()))
+    if len([k for k in rest2.values() if k is not back2]) != 0:
+        return False
+    return same(ref[0], observed_grouping(back2), exported_only=True)
 
 
 @ob('O14.1', 'import attaches every signature to the component that precedes it, ignores trust packets, splits a second primary key off; export omits exactly the '
